@@ -41,6 +41,10 @@ def gen(rng, ctx):
             ch = {"name": f"ch{i}", "nodes": [["p", "input", False], ["m", rng.choice(["not", "buf"]), False], ["o", rng.choice(["and", "buf", "xor"]), True]], "edges": [["p", "m"], ["m", "o"]] + ([["p", "o"]] if rng.random() < 0.5 else []), "bbs": {}}
             if ch["nodes"][2][1] == "buf" and len([e for e in ch["edges"] if e[1] == "o"]) > 1:
                 ch["nodes"][2][1] = "and"
+            if rng.random() < 0.4:
+                # floating internals: a nested instance whose pins are all open and a spare gate without any wire
+                ch["nodes"] += [["n1.a", "bb_input", False], ["n1.b", "bb_input", False], ["n1.y", "bb_output", False], ["n1.z", "bb_output", False], ["spare", rng.choice(["xor", "and", "buf"]), False]]
+                ch["bbs"] = {"n1": {"name": "two", "inputs": ["a", "b"], "outputs": ["y", "z"]}}
         children.append(ch)
     # a child with the pin NAMES of blackbox `one` but the opposite directions (fill must refuse it)
     children.append({"name": "ch2", "nodes": [["o", "input", False], ["p", rng.choice(["not", "buf", "and"]), True]], "edges": [["o", "p"]], "bbs": {}})
@@ -166,7 +170,7 @@ def gen(rng, ctx):
                 ops[-1]["rep"] = rng.choice(["tuple", "set", "frozenset", "dictkeys"])
         elif k == "add_blackbox":
             bb = rng.choice(BBDEFS)
-            name = rng.choice(["u", "v", "w", "I", "1z", "u", "u.p", "u.v"]) if rng.random() < 0.8 else pick()
+            name = rng.choice(["u", "v", "w", "I", "1z", "u", "u.p", "u.v", "I_n0", "u_n0", "s_n1", "a_n0"]) if rng.random() < 0.8 else pick()  # <inst>_<nested>: the key a later add_subcircuit needs
             conns = {}
             for p in bb["inputs"] + bb["outputs"]:
                 if rng.random() < 0.5:
